@@ -11,7 +11,7 @@ use chia_consensus::consensus_constants::TEST_CONSTANTS;
 use chia_consensus::flags::ConsensusFlags;
 use chia_consensus::get_puzzle_and_solution::get_puzzle_and_solution_for_coin;
 use chia_consensus::owned_conditions::OwnedSpendBundleConditions;
-use chia_consensus::run_block_generator::{get_coinspends_for_trusted_block, run_block_generator, run_block_generator2, setup_generator_args};
+use chia_consensus::run_block_generator::{get_coinspends_for_trusted_block, get_coinspends_with_conditions_for_trusted_block, run_block_generator, run_block_generator2};
 use chia_consensus::solution_generator::{calculate_generator_length, solution_generator, solution_generator_backrefs};
 use chia_consensus::spendbundle_conditions::run_spendbundle;
 use chia_protocol::{Bytes32, Coin, CoinSpend, Program, SpendBundle};
@@ -553,6 +553,29 @@ pub fn c09_case(o: &mut Out, program: &[u8], flags: u32) {
         }
         Err(e) => format!("ERR:{:?}", e.error_code()),
     };
+    // the variant that also lists each spend's conditions: the same coin spends in the same order, and its CREATE_COIN
+    // entries (opcode 51: puzzle hash, amount) are the created coins of the validated spend
+    let withconds = match get_coinspends_with_conditions_for_trusted_block(&TEST_CONSTANTS, &Program::from(program.to_vec()), refs.iter(), f) {
+        Err(e) => format!("ERR:{:?}", e.error_code()),
+        Ok(v) => match &cs {
+            Err(_) => "DIFFERENT:other-helper-failed".to_string(),
+            Ok(cs0) => {
+                if v.len() != cs0.len() || v.iter().zip(cs0.iter()).any(|((c, _), c0)| c != c0) { "DIFFERENT:spends".to_string() }
+                else if v.len() != owned.spends.len() { "DIFFERENT:count".to_string() }
+                else {
+                    let mut ok = true;
+                    for ((_, conds), s) in v.iter().zip(owned.spends.iter()) {
+                        let mut listed: Vec<(Vec<u8>, u64)> = conds.iter().filter(|(op, args)| *op == 51 && args.len() >= 2)
+                            .map(|(_, args)| (args[0].clone(), args[1].iter().fold(0u128, |acc, b| (acc << 8) | *b as u128) as u64)).collect();
+                        let mut want: Vec<(Vec<u8>, u64)> = s.create_coin.iter().map(|(ph, amt, _)| (ph.as_ref().to_vec(), *amt)).collect();
+                        listed.sort(); want.sort();
+                        if listed != want { ok = false; }
+                    }
+                    if ok { "same".to_string() } else { "DIFFERENT:create-coin".to_string() }
+                }
+            }
+        },
+    };
     let lookup = {
         let mut a = make_allocator(f);
         let mut ok = true;
@@ -575,7 +598,7 @@ pub fn c09_case(o: &mut Out, program: &[u8], flags: u32) {
             while let Some((sp, rest)) = next(&a, it) { it = rest;
                 if let Some([_, pz, _, sol, _]) = extract5(&a, sp) { for n in [pz, sol] { if node_to_bytes_limit(&a, n, 2_000_000).is_err() { over = true; } } } }
             if over { line.push_str(" @reveal-over-2MB"); } } } }
-    o.case(&line, &format!("{} || rebuild={} lookup={} || vrem=[{}] vadd=[{}] || scanner=agrees", ar, rebuild, lookup, v_rem.join(","), v_add.join(",")));
+    o.case(&line, &format!("{} || rebuild={} lookup={} withconds={} || vrem=[{}] vadd=[{}] || scanner=agrees", ar, rebuild, lookup, withconds, v_rem.join(","), v_add.join(",")));
 }
 
 
